@@ -8,9 +8,29 @@
 //!   `d` and every entry of `ds` may also be a duration that no `Instant` can be moved by, whatever the unit:
 //!   `max` = `Duration::MAX`, `smax` = `Duration::from_secs(u64::MAX)`, `hmax` = `Duration::from_secs(1 << 63)`
 //!   (tokio's `sleep` saturates such a deadline: the timer is never due)
-//! arrive: `warm=<ms|never>,…` — readiness of the *fresh clones* of the inner service made for this request:
+//!   `max=0` is passed to the builder as it is (the builder documents a clamp to at least 1); `max=dflt`: the setter is
+//!   not called (default 2); `d=dflt`: one second, and with kind=fixed `.delay(..)` is not called (the default)
+//! construction paths: `via=builder` (default) `HedgeLayer::builder()…build()`; `via=dflt` the same through
+//!   `HedgeConfigBuilder::default()`; `via=new` the shortcut `HedgeLayer::new(d)` (max/kind/name/listen do not apply);
+//!   `via=direct` no layer at all: `Hedge::new(inner, HedgeConfig::default())`
+//!   `name=<s>` `.name(s)` as the last setter (`nameat=first`: as the first one); `listen=1` `.on_event(..)`: the
+//!   listener writes `#ev <event_type> <pattern_name>` meta lines (not compared with the model)
+//! arrive: which handle makes the call —
+//!   `svc=<k>` the k-th service built (lazily, on first use) from the ONE layer value, `lc=1`: from a clone of the layer
+//!   taken at that moment; without `h=` the call is made on a fresh clone of that service, dropped afterwards;
+//!   `h=<id>` a handle the adapter keeps: created on first use as a clone of service `svc` (or, with `from=<id2>`, as a
+//!   clone of handle id2 — a clone taken after calls were made on it) and used again by every later `arrive … h=<id>`
+//!   (poll_ready + call on the same handle, call after call); `#handle <c> <id> new|clone|reuse` meta lines;
+//!   `rdy=err`: the handle's inner service fails this readiness poll (`Err(IErr{9,0})`): `Hedge::poll_ready` answers
+//!   `HedgeError::Inner`, rendered as the result of the request, no call is made;
+//!   `acc=1`: the caller inspects an error through `HedgeError`'s accessors (and its `Clone`): the result line gets the
+//!   extra word `acc=af:<is_all_attempts_failed>,in:<is_inner>,ref:<inner()>,into:<clone().into_inner()>`
+//! `manual dropsvc`: the layer, every service and every handle the adapter holds are dropped (calls in flight go on);
+//!   later arrivals are answered `noop`
+//! arrive: `warm=<ms|never|fail>,…` — readiness of the *fresh clones* of the inner service made for this request:
 //!   the i-th fresh clone (i ≥ 1) whose readiness is polled reports `Pending` until `warm[i-1]` ms after its
-//!   first `poll_ready` (`never`: for ever, no wake-up); beyond the list (and without `warm=`) clones are ready
+//!   first `poll_ready` (`never`: for ever, no wake-up; `fail`: that first poll answers `Err(IErr{9,0})` — the
+//!   attempt's task sends the error as its result and never calls); beyond the list (and without `warm=`) clones are ready
 //!   at once and nothing is logged. A listed clone logs `inner_warm <c> <i> <w>` at its first readiness poll.
 //!   The instance the adapter itself polls ready and calls (the primary's) is always ready.
 //! Attempts are spawned tasks; the `Obs` wrapper around `world::Inner` reports the order in which
@@ -25,7 +45,8 @@ use std::sync::{Arc, Mutex};
 use std::task::{Context, Poll};
 use std::time::Duration;
 use tower::{Layer, Service};
-use tower_resilience_hedge::{Hedge, HedgeError, HedgeLayer};
+use tower_resilience_core::{FnListener, ResilienceEvent};
+use tower_resilience_hedge::{Hedge, HedgeConfig, HedgeConfigBuilder, HedgeError, HedgeEvent, HedgeLayer};
 
 /// What the clones of one case share: the serial counter and the readiness plans of the requests.
 #[derive(Default)]
@@ -35,11 +56,23 @@ pub struct Shared {
     calls: AtomicU64,
     /// request on whose behalf the adapter is cloning the layer right now (inherited by clones of that clone)
     cur: Mutex<Option<usize>>,
-    /// per request: remaining warm-up plan (`None` = never ready) and number of fresh clones polled so far;
+    /// per request: remaining warm-up plan and number of fresh clones polled so far;
     /// registered by the adapter after it has driven the primary's instance itself
-    warm: Mutex<BTreeMap<usize, (VecDeque<Option<u64>>, usize)>>,
+    warm: Mutex<BTreeMap<usize, (VecDeque<Plan>, usize)>>,
     /// per request: serial of its first attempt that completed successfully
     first_ok: Mutex<BTreeMap<usize, u64>>,
+    /// requests whose handle fails its next readiness poll (`rdy=err`)
+    fail: Mutex<std::collections::BTreeSet<usize>>,
+}
+
+/// readiness plan entry of one fresh clone
+#[derive(Clone, Copy)]
+pub enum Plan {
+    /// ready that many ms after its first readiness poll
+    After(u64),
+    Never,
+    /// the first readiness poll answers with an error
+    Fail,
 }
 
 enum Warm {
@@ -108,6 +141,14 @@ impl Service<Req> for Obs {
     type Error = IErr;
     type Future = ObsFut;
     fn poll_ready(&mut self, cx: &mut Context<'_>) -> Poll<Result<(), IErr>> {
+        // the adapter is driving this instance on behalf of a request (a kept handle serves one request after the
+        // other: the instance its previous call left behind now belongs to the new request)
+        if let Some(c) = *self.sh.cur.lock().unwrap() {
+            self.req = Some(c);
+            if self.sh.fail.lock().unwrap().remove(&c) {
+                return Poll::Ready(Err(IErr { kind: 9, v: 0 }));
+            }
+        }
         if let Warm::Fresh = self.st {
             self.st = Warm::Ready;
             if let Some(c) = self.req {
@@ -118,12 +159,17 @@ impl Service<Req> for Obs {
                     match plan.pop_front() {
                         None => {}
                         Some(w) => {
-                            let ws = w.map(|x| x.to_string()).unwrap_or_else(|| "never".into());
+                            let ws = match w {
+                                Plan::After(x) => x.to_string(),
+                                Plan::Never => "never".into(),
+                                Plan::Fail => "fail".into(),
+                            };
                             log(format!("inner_warm {} {} {}", c, self.att, ws));
                             match w {
-                                Some(0) => {}
-                                Some(ms) => self.st = Warm::Warming(Box::pin(tokio::time::sleep(Duration::from_millis(ms)))),
-                                None => self.st = Warm::Never,
+                                Plan::After(0) => {}
+                                Plan::After(ms) => self.st = Warm::Warming(Box::pin(tokio::time::sleep(Duration::from_millis(ms)))),
+                                Plan::Never => self.st = Warm::Never,
+                                Plan::Fail => return Poll::Ready(Err(IErr { kind: 9, v: 0 })),
                             }
                         }
                     }
@@ -176,13 +222,28 @@ impl<F: Future> Future for Polled<F> {
     }
 }
 
+/// how services are made
+enum Maker {
+    /// the one layer value every service of the case is built from
+    Layer(HedgeLayer),
+    /// `via=direct`: `Hedge::new(inner, HedgeConfig::default())`
+    Direct,
+    /// after `manual dropsvc`
+    Gone,
+}
+
 pub struct Adapter {
-    svc: Hedge<Obs>,
+    maker: Maker,
+    /// services built from the layer so far, by index (`svc=<k>`)
+    svcs: BTreeMap<u64, Hedge<Obs>>,
+    /// handles kept between requests (`h=<id>`)
+    handles: BTreeMap<u64, Hedge<Obs>>,
     sh: Arc<Shared>,
 }
 
 impl Adapter {
     pub fn new(kv: &Kv) -> Adapter {
+        let max_s = kv.str("max", "2");
         let max = kv.u64("max", 2) as usize;
         let us = kv.str("unit", "ms") == "us";
         let dur = move |x: &str| -> Option<Duration> {
@@ -190,24 +251,66 @@ impl Adapter {
                 "max" => Some(Duration::MAX),
                 "smax" => Some(Duration::from_secs(u64::MAX)),
                 "hmax" => Some(Duration::from_secs(1 << 63)),
+                // the documented default delay
+                "dflt" => Some(Duration::from_secs(1)),
                 _ => x.parse::<u64>().ok().map(|v| if us { Duration::from_micros(v) } else { Duration::from_millis(v) }),
             }
         };
-        let d = dur(&kv.str("d", "0")).unwrap_or(Duration::ZERO);
+        let d_s = kv.str("d", "0");
+        let d = dur(&d_s).unwrap_or(Duration::ZERO);
         let ds: Vec<Duration> = kv
             .get("ds")
             .map(|s| s.split(',').filter_map(|x| dur(x)).collect())
             .unwrap_or_default();
-        let b = HedgeLayer::builder().max_hedged_attempts(max);
-        let b = match kv.str("kind", "fixed").as_str() {
-            "imm" => b.no_delay(),
-            "fn" => b.delay_fn(move |n| if n >= 1 && n - 1 < ds.len() { ds[n - 1] } else { d }),
-            _ => b.delay(d),
+        let via = kv.str("via", "builder");
+        let maker = match via.as_str() {
+            "direct" => Maker::Direct,
+            "new" => Maker::Layer(HedgeLayer::new(d)),
+            _ => {
+                let mut b = if via == "dflt" { HedgeConfigBuilder::default() } else { HedgeLayer::builder() };
+                let name = kv.get("name").map(|s| s.to_string());
+                let first = kv.str("nameat", "last") == "first";
+                if let (Some(n), true) = (&name, first) {
+                    b = b.name(n.clone());
+                }
+                if max_s != "dflt" {
+                    b = b.max_hedged_attempts(max);
+                }
+                b = match kv.str("kind", "fixed").as_str() {
+                    "imm" => b.no_delay(),
+                    "fn" => b.delay_fn(move |n| if n >= 1 && n - 1 < ds.len() { ds[n - 1] } else { d }),
+                    _ if d_s == "dflt" => b,
+                    _ => b.delay(d),
+                };
+                if kv.u64("listen", 0) == 1 {
+                    b = b.on_event(FnListener::new(|e: &HedgeEvent| {
+                        let _ = e.timestamp();
+                        log_raw(format!("#ev {} {}", e.event_type(), e.pattern_name()));
+                    }));
+                }
+                if let (Some(n), false) = (&name, first) {
+                    b = b.name(n.clone());
+                }
+                Maker::Layer(b.build())
+            }
         };
-        let layer = b.build();
-        let sh = Arc::new(Shared::default());
-        let obs = Obs { inner: Inner::new(), sh: sh.clone(), req: None, st: Warm::Fresh, att: 0, waited: false };
-        Adapter { svc: layer.layer(obs), sh }
+        Adapter { maker, svcs: BTreeMap::new(), handles: BTreeMap::new(), sh: Arc::new(Shared::default()) }
+    }
+
+    /// service number k, built on first use: every service from the same layer value (`lc`: from a clone of it taken
+    /// now), each around its own instance of the scripted inner service
+    fn service(&mut self, k: u64, lc: bool) -> Option<&mut Hedge<Obs>> {
+        if !self.svcs.contains_key(&k) {
+            let obs = Obs { inner: Inner::new(), sh: self.sh.clone(), req: None, st: Warm::Fresh, att: 0, waited: false };
+            let svc = match &self.maker {
+                Maker::Layer(l) if lc => l.clone().layer(obs),
+                Maker::Layer(l) => l.layer(obs),
+                Maker::Direct => Hedge::new(obs, HedgeConfig::default()),
+                Maker::Gone => return None,
+            };
+            self.svcs.insert(k, svc);
+        }
+        self.svcs.get_mut(&k)
     }
 }
 
@@ -219,27 +322,91 @@ pub fn render(r: Result<Resp, HedgeError<IErr>>) -> String {
     }
 }
 
+/// a caller that looks at an error through the accessors of `HedgeError` (and its `Clone` impl)
+pub fn render_acc(r: Result<Resp, HedgeError<IErr>>) -> String {
+    match r {
+        Ok(x) => format!("ok:{}", x.v),
+        Err(e) => {
+            let (af, inn) = (e.is_all_attempts_failed(), e.is_inner());
+            let rf = e.inner().clone();
+            let into = e.clone().into_inner();
+            format!("{} acc=af:{},in:{},ref:inner{}:{},into:inner{}:{}", render(Err(e)), af as u8, inn as u8, rf.kind, rf.v, into.kind, into.v)
+        }
+    }
+}
+
 impl Mw for Adapter {
     fn arrive(&mut self, c: usize, kv: &Kv) -> Option<CallFut> {
+        if let Maker::Gone = self.maker {
+            log_raw("noop".into());
+            return None;
+        }
+        let rend: fn(Result<Resp, HedgeError<IErr>>) -> String = if kv.u64("acc", 0) == 1 { render_acc } else { render };
+        let (k, lc) = (kv.u64("svc", 0), kv.u64("lc", 0) == 1);
         *self.sh.cur.lock().unwrap() = Some(c);
-        let mut svc = self.svc.clone();
-        *self.sh.cur.lock().unwrap() = None;
+        // the handle the request is made on
+        let mut once;
+        let svc: &mut Hedge<Obs> = match kv.opt_u64("h") {
+            None => {
+                once = self.service(k, lc)?.clone();
+                &mut once
+            }
+            Some(h) => {
+                if self.handles.contains_key(&h) {
+                    log_raw(format!("#handle {} {} reuse", c, h));
+                } else {
+                    let from = kv.opt_u64("from").and_then(|f| self.handles.get(&f)).map(|s| s.clone());
+                    log_raw(format!("#handle {} {} {}", c, h, if from.is_some() { "clone" } else { "new" }));
+                    let new = match from {
+                        Some(s) => s,
+                        None => self.service(k, lc)?.clone(),
+                    };
+                    self.handles.insert(h, new);
+                }
+                self.handles.get_mut(&h).unwrap()
+            }
+        };
+        if kv.str("rdy", "ok") == "err" {
+            self.sh.fail.lock().unwrap().insert(c);
+        }
         let req = Req::new(c, kv);
-        match poll_ready_once(&mut svc) {
+        let ready = poll_ready_once(svc);
+        self.sh.fail.lock().unwrap().remove(&c);
+        match ready {
             Poll::Ready(Ok(())) => {}
-            _ => {
+            Poll::Ready(Err(e)) => {
+                *self.sh.cur.lock().unwrap() = None;
+                log(format!("result {} {}", c, rend(Err(e))));
+                return None;
+            }
+            Poll::Pending => {
+                *self.sh.cur.lock().unwrap() = None;
                 log(format!("result {} notready", c));
                 return None;
             }
         }
         let fut = svc.call(req);
+        *self.sh.cur.lock().unwrap() = None;
         // from here on the fresh clones made for this request follow its readiness plan
-        let plan: VecDeque<Option<u64>> = kv
+        let plan: VecDeque<Plan> = kv
             .get("warm")
-            .map(|s| s.split(',').filter(|x| !x.is_empty()).map(|x| x.parse().ok()).collect())
+            .map(|s| {
+                s.split(',')
+                    .filter(|x| !x.is_empty())
+                    .map(|x| if x == "fail" { Plan::Fail } else { x.parse().map(Plan::After).unwrap_or(Plan::Never) })
+                    .collect()
+            })
             .unwrap_or_default();
         self.sh.warm.lock().unwrap().insert(c, (plan, 0));
-        Some(held(Polled { f: Box::pin(fut), c, sh: self.sh.clone() }, render))
+        Some(held(Polled { f: Box::pin(fut), c, sh: self.sh.clone() }, rend))
+    }
+    fn manual(&mut self, what: &str, _kv: &Kv) {
+        if what == "dropsvc" {
+            // every service handle, clone and the layer itself
+            self.handles.clear();
+            self.svcs.clear();
+            self.maker = Maker::Gone;
+        }
     }
     fn yields(&self) -> usize {
         8
